@@ -65,3 +65,10 @@ func init() {
 		Real:  clusterReal, Stub: append([]string{"the backup command's steps are reproduced by the harness (runBackup itself reads command-line flags)"}, clusterStub...),
 		Assume: []string{"stream faults are not injected (the statement promises no fault tolerance there)", "a backup run during which the source was written is only required to converge with the next run"}}
 }
+
+func init() {
+	props["C25"] = &propCfg{Engine: "cluster", Variants: []string{""}, Quick: 200, Thorough: 12000, Chunk: 10, QuickWall: 110, ThorWall: 1500,
+		Rule:  "each run = real master + volume server + filer (HTTP handlers, leveldb2 store) on the simulated network; 3-9 PUT / multipart POST / append requests on three paths with bodies around the inline limit (0/64/1024) and the 1 MB chunk boundary (1 MB -1/0/+1, 2 MB), each followed by a GET through the filer; odd runs inject: a request body that fails after k bytes (first bytes, on the chunk boundary, last byte, random), dropped Assign RPCs, dropped or response-lost chunk uploads (retries on the fake clock); oracle: success => GET returns exactly the body (append: old||new); a request whose body failed is never reported successful; after a reported failure the file is unchanged/absent (or, without a body failure, completely written), never truncated; non-trivial = a fault fired; distinct = distinct abstract traces",
+		Real:  append([]string{"weed/server FilerServer (autochunk write handlers, read handler, gRPC service), weed/filer core on leveldb2"}, clusterReal...), Stub: clusterStub,
+		Assume: []string{"chunk sizes are whole megabytes in this version (maxMB); only 1 MB chunks are used", "one volume server, replication 000"}}
+}
